@@ -86,6 +86,8 @@ Definition reason_code (e : err) : Z :=
     | MissingStatus => 18 | BadStatus => 19
     | UrlParse => 11      (* the code words this one "invalid content length: ..." too *)
     | UrlParseExt => 20
+    | EmptyPseudo => 21
+    | ConnectSchemeRule => 22
     end
   end.
 
